@@ -382,11 +382,22 @@ func c06CLI(c *Ctx, alpha []c06Sym, maxLen int, fl Flags) {
 		r := CLIRun{Bin: c.CLI, Dir: dir}
 		switch in {
 		case "file":
-			os.WriteFile(filepath.Join(dir, "in.log"), []byte(text), 0o644)
-			args = append(args, filepath.Join(dir, "in.log"))
+			if preExisting {
+				// the repetition names its input differently: a relative path with a blank and a non-ASCII letter, upper-case extension
+				os.WriteFile(filepath.Join(dir, "in put \u00e9.LOG"), []byte(text), 0o644)
+				args = append(args, "./in put \u00e9.LOG")
+			} else {
+				os.WriteFile(filepath.Join(dir, "in.log"), []byte(text), 0o644)
+				args = append(args, filepath.Join(dir, "in.log"))
+			}
 		case "gz":
-			os.WriteFile(filepath.Join(dir, "in.log.gz"), gz([]byte(text)), 0o644)
-			args = append(args, filepath.Join(dir, "in.log.gz"))
+			if preExisting {
+				os.WriteFile(filepath.Join(dir, "in put \u00e9.log.GZ"), gz([]byte(text)), 0o644)
+				args = append(args, "in put \u00e9.log.GZ")
+			} else {
+				os.WriteFile(filepath.Join(dir, "in.log.gz"), gz([]byte(text)), 0o644)
+				args = append(args, filepath.Join(dir, "in.log.gz"))
+			}
 		case "stdin":
 			r.StdinMode, r.Stdin = "pipe", []byte(text)
 		}
